@@ -76,6 +76,7 @@ class World:
         self.queued: dict[int, tuple] = {}  # trial number -> (fixed value, user attrs)
         self.asked: list = []
         self.prefix_bad: list = []
+        self.worker_storages: list = []
 
     def worker_studies(self, n: int) -> list:
         if self.config == "jlist-procs":
@@ -84,6 +85,7 @@ class World:
                 st = JournalStorage(ListBackend(self.env._shared))
                 out.append(optuna.load_study(study_name="c04", storage=st, sampler=optuna.samplers.RandomSampler(seed=0)))
                 self.storages.append(st)
+                self.worker_storages.append(st)
             return out
         return [self.study] * n
 
@@ -201,6 +203,12 @@ class Run:
                         try:
                             if step == "peek":
                                 studies[i].get_trials(deepcopy=False, states=(TrialState.WAITING,))
+                            elif step == "open":
+                                # the usual start-up of a worker process: its own create_study record
+                                # is rejected (the study exists) and is replayed in one batch with
+                                # whatever the other workers appended meanwhile
+                                studies[i] = optuna.create_study(study_name="c04", storage=w.worker_storages[i], load_if_exists=True,
+                                                                 sampler=optuna.samplers.RandomSampler(seed=0))
                             elif step == "ask":
                                 t = studies[i].ask()
                                 v = suggest_both(t)
@@ -347,6 +355,8 @@ def run(tier: str, replay: str | None = None) -> int:
         for p in pres:
             for progs in progs2:
                 tasks.append((cfg, p, progs, bound))
+            if cfg == "jlist-procs":
+                tasks.append((cfg, p, (("open", "ask"), ("ask",)), bound))
             if (tier == "thorough" or cfg == "mem") and not slow:
                 for progs in PROGRAMS[3]:
                     tasks.append((cfg, p, progs, 1))
@@ -368,7 +378,7 @@ def run(tier: str, replay: str | None = None) -> int:
     backends.cleanup_root()
     return ctx.finish(
         exhaustive=not ctx.cov.get("caps_hit"),
-        rule="every prefix history of depth <= 2 (thorough 3) over {enqueue, ask, tell, add finished, add WAITING} leaving 1-2 queued trials x worker programs (2 workers: ask|ask, ask ask|ask, enq ask|ask, ask|enq; 3 workers) x all schedules up to the preemption bound; states = distinct (who got which trial, errors) outcomes",
+        rule="every prefix history of depth <= 2 (thorough 3) over {enqueue, ask, tell, add finished, add WAITING} leaving 1-2 queued trials x worker programs (2 workers: ask|ask, ask ask|ask, enq ask|ask, ask|enq, peek ask|ask, and for separate journal processes open ask|ask; 3 workers) x all schedules up to the preemption bound; states = distinct (who got which trial, errors) outcomes",
     )
 
 
